@@ -24,3 +24,5 @@ import PandoraModel.Properties.C17
 import PandoraModel.Properties.C18
 import PandoraModel.Properties.C19
 import PandoraModel.Properties.C20
+import PandoraModel.Properties.C08C07
+import PandoraModel.Properties.C13Steps
